@@ -2,7 +2,7 @@
    form and every spelling of the token rule INTEGER), single-line and multi-line string literals, fixed-point values,
    the arguments of position marks.  Constants, the printing contexts and the lexer rule for multi-line literals are
    decided on the real code (harness/checks/c04.py). *)
-From ES Require Import Base Text.Dec Text.Str Text.StrProofs Text.MStr Text.MStrProofs Text.Num Text.NumProofs.
+From ES Require Import Base Text.Dec Text.Str Text.StrProofs Text.MStr Text.MStrProofs Text.MLex Text.MLexProofs Text.Num Text.NumProofs.
 
 Theorem C04_int_roundtrip : forall z, parse_Z (print_Z z) = Some z.
 Proof. exact parse_print_Z. Qed.
@@ -21,12 +21,22 @@ Print Assumptions C04_single_line_string_roundtrip.
 
 (* a string that is multi-line exact (no line separator other than LF, some line does not start with a blank): the
    multi-line literal printed at any indentation depth, with either triple quote, is read back as the string by the
-   reader's dedent rules (str.splitlines semantics included).  That the lexer takes the printed text as one literal
-   needs the delimiter not to occur in the string; the lexer rule for multi-line literals is not modelled. *)
+   reader's dedent rules (str.splitlines semantics included). *)
 Theorem C04_multi_line_string_roundtrip : forall q indent s,
   multi_exact s = true -> read_multi (print_multi q indent s) = s.
 Proof. exact multi_roundtrip. Qed.
 Print Assumptions C04_multi_line_string_roundtrip.
+
+(* ... and the printed literal is exactly one token for the lexer rule (the non-greedy body ends at the first place where
+   the delimiter follows), whatever text follows it, provided the delimiter does not occur in the string - the test
+   _multiline_literal_is_exact makes before this form is chosen *)
+Theorem C04_multi_line_literal_is_one_token : forall q indent s rest,
+  (q = DQ \/ q = SQ) -> occurs3 q s = false ->
+  lex_multi q (print_multi q indent s ++ rest) = Some (print_multi q indent s, rest).
+Proof.
+  intros q indent s rest Hq Ho. apply printed_literal_is_one_token; [| | exact Ho]; destruct Hq; subst; discriminate.
+Qed.
+Print Assumptions C04_multi_line_literal_is_one_token.
 
 Example C04_multi_example :
   let s := s2t "first"%string ++ [LF] ++ s2t "  indented"%string ++ [LF; LF] ++ s2t "last "%string ++ [LF] in
